@@ -555,7 +555,9 @@ def signature(trace, result):
 
 
 def matches_known(known_sig, sig):
-    return known_sig['clause'] == sig['clause'] and set(known_sig.get('needs', [])) <= set(sig.get('needs', []))
+    """Same clause, the minimised trace has every structural feature the listed finding needs and none it forbids."""
+    return (known_sig['clause'] == sig['clause'] and set(known_sig.get('needs', [])) <= set(sig.get('needs', []))
+            and not (set(known_sig.get('forbids', [])) & set(sig.get('needs', []))))
 
 
 def sample(trace):
